@@ -32,7 +32,7 @@ REPLAY_DIR = os.environ.get("MCF_REPLAY_DIR") or os.path.join(VERIF, "replays")
 KNOWN_FILE = os.path.join(VERIF, "known_findings.json")
 
 MAX_VIOL_PER_UNIT = 400
-MAX_REPORTED = 40
+MAX_REPORTED = int(os.environ.get("MCF_MAX_REPORTED", "40"))
 
 
 def h64(obj) -> int:
